@@ -15,6 +15,7 @@ import ChessVerif.Proofs.SearchRoot
 import ChessVerif.Proofs.SearchDemo
 import ChessVerif.Proofs.SearchScoreDemo
 import ChessVerif.Proofs.SearchFinalAbort
+import ChessVerif.Proofs.SearchFinalFree
 
 namespace ChessVerif.Props.C06
 open ChessVerif Search
@@ -144,23 +145,29 @@ omit [PsInv σ] in
 theorem eval_range (c : Comp σ π) (b : Board) : (-10000 : Int) + 64 < evaluate c b ∧ evaluate c b < (10000 : Int) - 64 :=
   evaluate_range c b
 
-/-- Every value `alphaBeta` returns un-aborted lies in `[-Inf, Inf]`, and `alphaBeta` keeps the table
+/-- Every value `alphaBeta` returns un-aborted lies in `[-Inf, Inf]` and is ply-consistent (`RelP`: a
+    mate score never claims a mate earlier than the node's own ply — what the table's re-basing of
+    mate scores needs), and `alphaBeta` keeps the table
     invariant on EVERY path, aborted or not (every store is behind an abort check) — for every fuel,
     depth, node type, ply `0..63`, workable window and state with sound tables. -/
 theorem alphaBeta_value_in_range (c : Comp σ π) (L : Limits) {Good : Board → Prop} {TTok : σ → Prop} {μ : Board → Nat}
     (hl : Laws c Good) (sl : ScoreLaws c Good TTok μ) (fuel : Nat) (a b : Score) (d ply : Int) (nt : NodeType) (s : St σ)
     (hg : Good s.board) (h0 : 0 ≤ ply) (h1 : ply ≤ 63) (hw : WinOK a b) (htt : TTok s.ps) :
     TTok (alphaBeta c L fuel a b d ply nt s).2.ps ∧
-      ((alphaBeta c L fuel a b d ply nt s).2.aborted = false → InR (alphaBeta c L fuel a b d ply nt s).1) :=
-  alphaBeta_range c L hl sl fuel a b d ply nt s hg h0 h1 hw htt
+      ((alphaBeta c L fuel a b d ply nt s).2.aborted = false →
+        InR (alphaBeta c L fuel a b d ply nt s).1 ∧ RelP ply (alphaBeta c L fuel a b d ply nt s).1) :=
+  let h := alphaBeta_range c L hl sl fuel a b d ply nt s hg h0 h1 hw htt
+  ⟨h.1, fun hna => ⟨(h.2 hna).inR h0, h.2 hna⟩⟩
 
 /-- the same for `quiescence` (plies that cannot wrap the int8 counter). -/
 theorem quiescence_value_in_range (c : Comp σ π) (L : Limits) {Good : Board → Prop} {TTok : σ → Prop} {μ : Board → Nat}
     (hl : Laws c Good) (sl : ScoreLaws c Good TTok μ) (fuel : Nat) (a b : Score) (ply : Int) (s : St σ)
     (hg : Good s.board) (h0 : 0 ≤ ply) (h1 : ply + (μ s.board : Int) ≤ 111) (hw : WinOK a b) (htt : TTok s.ps) :
     TTok (quiescence c L fuel a b ply s).2.ps ∧
-      ((quiescence c L fuel a b ply s).2.aborted = false → InR (quiescence c L fuel a b ply s).1) :=
-  quiescence_range c L hl sl fuel a b ply s hg h0 h1 hw htt
+      ((quiescence c L fuel a b ply s).2.aborted = false →
+        InR (quiescence c L fuel a b ply s).1 ∧ RelP ply (quiescence c L fuel a b ply s).1) :=
+  let h := quiescence_range c L hl sl fuel a b ply s hg h0 h1 hw htt
+  ⟨h.1, fun hna => ⟨(h.2 hna).inR h0, h.2 hna⟩⟩
 
 /-- `TTok` is an invariant of engine states: it survives every `go` — completed, stopped at any
     poll, out of budget at any node, out of fuel (this is the content of the D8 repair). -/
@@ -177,6 +184,37 @@ theorem go_null_only_if_final (c : Comp σ π) (L : Limits) (clock : Clock) {Goo
     (hg : Good b) (nodes0 : Int) (hd : 1 ≤ L.depth) (htt : TTok e.ps) (hsane : GoSane c L clock fuel e b nodes0)
     (hnull : (go c L clock fuel e b nodes0).move = 0) : Final c.keys b :=
   (go_score c L clock hl sl fuel e b hg nodes0 hd htt hsane).2.1 hnull
+
+/-- The same two statements WITHOUT `GoSane`, for parameter sets with `WindowSize = 44` whose reverse
+    futility margin cannot wrap at depths ≤ 2 (`AspLaws`; Proofs/SearchScoreFree.lean): un-aborted
+    results lie within `±Inf` and `factor` doubles at every failure, so at any failure `factor ≤ 512`
+    and every window of every aspiration chain lies within `±(Inf + 512·44)`; the root analysis is
+    needed at iteration 1 only, where reverse futility is then sound.  (`GoSane` itself — every
+    re-searched window below `rfpSafe` — is NOT derivable: nine fail-lows followed by a fail-high at
+    `beta > 9069` leave it, and only the stability of the search excludes that sequence.) -/
+theorem go_keeps_table_invariant_free (c : Comp σ π) (L : Limits) (clock : Clock) {Good : Board → Prop} {TTok : σ → Prop}
+    {μ : Board → Nat} (hl : Laws c Good) (sl : ScoreLaws c Good TTok μ) (al : AspLaws c) (fuel : Nat) (e : Engine σ)
+    (b : Board) (hg : Good b) (nodes0 : Int) (hd : 1 ≤ L.depth) (htt : TTok e.ps) :
+    TTok (go c L clock fuel e b nodes0).engine.ps :=
+  (go_free c L clock hl sl al fuel e b hg nodes0 hd htt).1
+
+theorem go_null_only_if_final_free (c : Comp σ π) (L : Limits) (clock : Clock) {Good : Board → Prop} {TTok : σ → Prop}
+    {μ : Board → Nat} (hl : Laws c Good) (sl : ScoreLaws c Good TTok μ) (al : AspLaws c) (fuel : Nat) (e : Engine σ)
+    (b : Board) (hg : Good b) (nodes0 : Int) (hd : 1 ≤ L.depth) (htt : TTok e.ps)
+    (hnull : (go c L clock fuel e b nodes0).move = 0) : Final c.keys b :=
+  (go_free c L clock hl sl al fuel e b hg nodes0 hd htt).2 hnull
+
+/-- … and the final-score clause without `GoSane`: on a final root every root search returns the final
+    value or fails high, so from iteration 2 on the aspiration windows are `(fs-44, fs+44·factor)` with
+    `factor ≤ 512` (Proofs/SearchFinalFree.lean). -/
+theorem go_final_score_free (c : Comp σ π) (L : Limits) (clock : Clock) {Good : Board → Prop} {TTok : σ → Prop}
+    {μ : Board → Nat} (hl : Laws c Good) (sl : ScoreLaws c Good TTok μ) (al : AspLaws c) (fuel : Nat) (e : Engine σ)
+    (b : Board) (hg : Good b) (nodes0 : Int) (hd : 1 ≤ L.depth) (htt : TTok e.ps)
+    (hfin : Final c.keys b) (hdone : (go c L clock fuel e b nodes0).st.aborted = false) :
+    (go c L clock fuel e b nodes0).move = 0 ∧
+      ((go c L clock fuel e b nodes0).score = 0 ∨
+        (b.inCheck b.stm = true ∧ MoveGen.playable c.keys b = [] ∧ (go c L clock fuel e b nodes0).score = -Inf)) :=
+  go_final_free c L clock hl sl al fuel e b hg nodes0 hd htt hfin hdone
 
 /-- A search that runs to completion (the abort flag is never raised) on a final root returns the
     null move with score 0, or with the mated score `-Inf` for a checkmated root. -/
@@ -217,6 +255,12 @@ example (K : Keys) (L : Limits) (clock : Clock) (e : Engine Unit) (hd : 1 ≤ L.
     (h : (go (demoComp K) L clock 0 e Board.empty).move = 0) : Final K Board.empty :=
   go_null_only_if_final (demoComp K) L clock (demo_laws K) (demo_scoreLaws K) 0 e Board.empty noMen_empty 0 hd trivial
     (demo_goSane K L clock e Board.empty) h
+
+/-- non-vacuity of the `GoSane`-free form: `demoComp` meets `AspLaws` too -/
+example (K : Keys) (L : Limits) (clock : Clock) (fuel : Nat) (e : Engine Unit) (hd : 1 ≤ L.depth)
+    (h : (go (demoComp K) L clock fuel e Board.empty).move = 0) : Final K Board.empty :=
+  go_null_only_if_final_free (demoComp K) L clock (demo_laws K) (demo_scoreLaws K) (demo_aspLaws K) fuel e Board.empty
+    noMen_empty 0 hd trivial h
 
 /-- the windows of the first searches are root windows: `(-Inf-1, Inf+1)` and `(s-W, s+W)` -/
 example : RootWin (-Inf - 1) (Inf + 1) ∧ RootWin (wrapS16 (-9990 - 44)) (wrapS16 (-9990 + 44)) := by decide
